@@ -375,12 +375,12 @@ impl<C: KeyColl> KeyExec<C> {
             if n > self.peak_phys {
                 self.peak_phys = n;
             }
-            let bound = 4 * (self.peak_phys + 1) + self.hint.max(8);
+            let bound = snap::slots_bound(self.peak_phys, self.hint);
             rep.counters.max("max_buffer_len_seen", s.slots.len() as u64);
             if s.slots.len() > bound {
                 return Err(Fail::new(
                     "slots-bound",
-                    format!("arena has {} slots, peak population {} (bound 4*(peak+1)+max(hint,8) = {})", s.slots.len(), self.peak_phys, bound),
+                    format!("arena has {} slots, peak population {} (bound 8*(peak+1)+2*max(hint,8)+64 = {})", s.slots.len(), self.peak_phys, bound),
                 ));
             }
             if was_clear && (s.root != i_tree::EMPTY_REF || s.free.len() != s.slots.len() - 1) {
